@@ -1,9 +1,10 @@
 //! A tool that functionaries can use to create link metadata about a step.
 
 use path_clean::clean;
-use std::collections::{BTreeMap, HashSet};
+use std::collections::{BTreeMap, HashMap, HashSet};
 use std::fs::{canonicalize as canonicalize_path, File};
 use std::io::{self, BufReader, Write};
+use std::path::PathBuf;
 use std::process::Command;
 use walkdir::WalkDir;
 
@@ -114,6 +115,9 @@ pub fn record_artifacts(
     // Initialize artifacts
     let mut artifacts: BTreeMap<VirtualTargetPath, TargetDescription> =
         BTreeMap::new();
+    // The file behind every recorded artifact, to tell two different files
+    // with the same (stripped) path from one file that is reached twice.
+    let mut sources: HashMap<VirtualTargetPath, PathBuf> = HashMap::new();
     // For each path provided, walk the directory and add all files to artifacts
     for path in paths {
         // Normalize path
@@ -139,12 +143,13 @@ pub fn record_artifacts(
                             hash_algorithms,
                             lstrip_paths,
                         )?;
-                        if artifacts.contains_key(&virtual_target_path) {
-                            return Err(Error::LinkGatheringError(format!(
-                                "non unique stripped path {virtual_target_path}"
-                            )));
-                        }
-                        artifacts.insert(virtual_target_path, hashes);
+                        insert_artifact(
+                            &mut artifacts,
+                            &mut sources,
+                            &path,
+                            virtual_target_path,
+                            hashes,
+                        )?;
                     }
                 }
             }
@@ -152,16 +157,41 @@ pub fn record_artifacts(
             if file_type.is_file() {
                 let (virtual_target_path, hashes) =
                     record_artifact(&path, hash_algorithms, lstrip_paths)?;
-                if artifacts.contains_key(&virtual_target_path) {
-                    return Err(Error::LinkGatheringError(format!(
-                        "non unique stripped path {virtual_target_path}"
-                    )));
-                }
-                artifacts.insert(virtual_target_path, hashes);
+                insert_artifact(
+                    &mut artifacts,
+                    &mut sources,
+                    &path,
+                    virtual_target_path,
+                    hashes,
+                )?;
             }
         }
     }
     Ok(artifacts)
+}
+
+/// Add an artifact to the record. Reaching the same file a second time under
+/// the same path (overlapping or repeated path arguments) is not an error;
+/// two different files that end up with the same path are.
+fn insert_artifact(
+    artifacts: &mut BTreeMap<VirtualTargetPath, TargetDescription>,
+    sources: &mut HashMap<VirtualTargetPath, PathBuf>,
+    path: &str,
+    virtual_target_path: VirtualTargetPath,
+    hashes: TargetDescription,
+) -> Result<()> {
+    let source = canonicalize_path(path)?;
+    match sources.get(&virtual_target_path) {
+        Some(recorded) if *recorded == source => Ok(()),
+        Some(_) => Err(Error::LinkGatheringError(format!(
+            "non unique stripped path {virtual_target_path}"
+        ))),
+        None => {
+            sources.insert(virtual_target_path.clone(), source);
+            artifacts.insert(virtual_target_path, hashes);
+            Ok(())
+        }
+    }
 }
 
 /// Given command arguments, executes commands on a software supply chain step
